@@ -1222,6 +1222,26 @@ void pass_do()
     }
 }
 
+/* on exit: a pass that TERM cut short still holds its job, so job_close() has not
+put the message back into pqchan and pqfinish() has not seen it. If recipients were
+deferred in this pass, persist the job's retry time the way pqfinish() does; without
+a deferral the file keeps its mtime and the rest is tried right after the restart. */
+void pass_finish()
+{
+ int c;
+ struct timeval ut[2] = { 0 };
+
+ for (c = 0;c < CHANNELS;++c)
+   if (pass[c].id)
+     if (jo[pass[c].j].numtodo)
+      {
+       fnmake_chanaddr(pass[c].id,c);
+       ut[0].tv_sec = ut[1].tv_sec = jo[pass[c].j].retry;
+       if (utimes(fn.s,ut) == -1)
+         log3("warning: unable to utime ",fn.s,"; message will be retried too soon\n");
+      }
+}
+
 
 /* this file is too long ---------------------------------------------- TODO */
 
@@ -1617,6 +1637,7 @@ int main(void)
     }
   }
  pqfinish();
+ pass_finish();
  log1("status: exiting\n");
  _exit(0);
 }
